@@ -31,7 +31,10 @@ def scope_with_locals(f):
     sc = Scope(f)
     for n in walk(f["body"]):
         if n.get("k") == "decl":
-            sc.bind_local(n)
+            if n.get("init") is not None and any(x.get("k") == "lambda" for x in walk(n["init"])):
+                sc.bind_opaque(n["id"], "%" + n["name"])       # result of an algorithm taking a predicate: named, not expanded
+            else:
+                sc.bind_local(n)
     return sc
 
 
@@ -291,7 +294,17 @@ def check_lookup(chk, F, cls):
     for lp in [x for x in rest if x.get("k") == "for"]:
         n_routes += 1
         check_linear(chk, F, cls, f1, lp, sc, n_, b)
-    ub = [x for st in rest for x in walk(st) if x.get("k") == "call" and callee(x).get("name") in ("upper_bound", "lower_bound", "equal_range", "partition_point", "find_if")]
+    fi = [x for st in rest for x in walk(st) if x.get("k") == "call" and callee(x).get("name") == "find_if" and callee(x).get("ns") == "std"]
+    for c in fi:
+        n_routes += 1
+        # the statements of the block that holds the call (the route may sit under the linear/binary size switch)
+        holder = rest
+        for st in rest:
+            for blk in [x for x in walk(st) if x.get("k") == "block"]:
+                if any(any(y is c for y in walk(z)) for z in blk["body"]):
+                    holder = blk["body"]
+        check_find_if(chk, F, cls, f1, c, sc, n_, b, holder)
+    ub = [x for st in rest for x in walk(st) if x.get("k") == "call" and callee(x).get("name") in ("upper_bound", "lower_bound", "equal_range", "partition_point")]
     for c in ub:
         n_routes += 1
         okc = callee(c).get("name") == "upper_bound"
@@ -383,6 +396,48 @@ def check_linear(chk, F, cls, f1, lp, sc, n_, b):
         okb = dn == want and len(rs) == 1 and rs[0].get("k") == "return" and canon(rs[0]["e"], sc) == "%i"
         det = "scan condition %s returns %s" % (fmt(dn), canon(rs[0]["e"], sc) if rs and rs[0].get("k") == "return" else "?")
     chk.ob("C03-R2", "%s linear route: first i in 0..N-1 with t < b[i+1] (strict), returning i" % cls, bool(okb), loc(f1, lp), det, construct=cls + "/lookup/linear")
+
+
+def check_find_if(chk, F, cls, f1, c, sc, n_, b, rest):
+    """the linear route written as  hit = find_if(b.begin()+1, b.begin()+1+N, [t](double e){ return t < e; });
+    if (hit == last) return N-1; return hit - first;   - first i in 0..N-1 with t < b[i+1] (strict), else N-1"""
+    a = c.get("args", [])
+    ok = len(a) == 3
+    det = ""
+    if ok:
+        first, last = canon(a[0], sc), canon(a[1], sc)
+        want_first = "(%s.begin() + 1)" % b      # iterator arithmetic keeps its operand order in the canonical text
+        np1 = (preds.cbin("+", n_, "1"), "(%s + 1)" % n_, "(1 + %s)" % n_)
+        ok_rng = first == want_first and last in ("(%s + %s)" % (want_first, n_),) + tuple("(%s.begin() + %s)" % (b, x_) for x_ in np1)
+        lam = strip_copy(a[2])
+        ok_pred = False
+        if lam.get("k") == "lambda" and len(lam.get("specs", [])) == 1 and len(lam["specs"][0].get("params", [])) == 1:
+            sp_ = lam["specs"][0]
+            sc.bind_opaque(sp_["params"][0]["id"], "%e")
+            rr = [x for x in walk(sp_["body"]) if x.get("k") == "return"]
+            if len(rr) == 1:
+                dn = set(refine(frozenset(), rr[0]["e"], True, sc))
+                ok_pred = dn == {frozenset({cmp_atom("<", "$p0", "%e", True)})}
+        # the statement holding the call names the result; the returns that follow translate it into an index
+        hit = None
+        for st in rest:
+            for x in walk(st):
+                if x.get("k") == "decl" and x.get("init") is not None and any(y is c for y in walk(x["init"])):
+                    hit = "%" + x["name"]
+        rets = []
+        for st in rest:
+            if st.get("k") == "return":
+                rets.append((None, canon(st["e"], sc)))
+            elif st.get("k") == "if" and not st.get("else"):
+                th = st["then"]
+                rs = th["body"] if th.get("k") == "block" else [th]
+                if len(rs) == 1 and rs[0].get("k") == "return":
+                    rets.append((canon(st["cond"], sc), canon(rs[0]["e"], sc)))
+        ok_ret = hit is not None and any(g in ("(%s == %s)" % (hit, last), "(%s == %s)" % (last, hit)) and r == preds.cbin("-", n_, "1") for g, r in rets if g) \
+            and any(g is None and r == "(%s - %s)" % (hit, first) for g, r in rets)
+        ok = ok_rng and ok_pred and ok_ret
+        det = "range [%s, %s) ok=%s, predicate ok=%s, returns %s ok=%s (result named %s)" % (first, last, ok_rng, ok_pred, rets, ok_ret, hit)
+    chk.ob("C03-R2", "%s linear route: first i in 0..N-1 with t < b[i+1] (strict), returning i" % cls, bool(ok), loc(f1, c), det, construct=cls + "/lookup/linear")
 
 
 # ------------------------------------------------------------------------------------------------- R4
